@@ -238,6 +238,18 @@ def _exec_function(case):
                 return out.fail(f"{tag}/calibration-raises:{rr.type}", rr.text)
             if qm.activation_qtype is None:
                 aq = None  # calibration streamlining may switch activations off; then the float-output contract applies
+    # the module as the caller holds it: the object quantize() worked on, a deep copy, or an unpickled copy (torch.save(model))
+    how = case["seed"] % 5
+    if how in (1, 2):
+        import copy
+        import pickle
+
+        cp = cut(lambda: copy.deepcopy(model) if how == 1 else pickle.loads(pickle.dumps(model)))
+        if isinstance(cp, Raised):
+            return out.fail(f"{tag}/{'deepcopy' if how == 1 else 'pickle'}-raises:{cp.type}", cp.text)
+        model = cp
+        qm = model[0]
+        out.klass.append("deep-copied" if how == 1 else "unpickled")
     # the input the module receives
     inp = x
     if case["input"] != "float":
